@@ -126,7 +126,8 @@ def ob_single_qubit_se(timeout=30):
             problems.append('%s receives the table filled with %s' % (lname, kind(items[0])))
     src = ast.unparse(f.node)
     if "self._results['single_qubit_p_est'] = estimates_list" not in src or "self._results['single_qubit_p_se'] = uncertainties_list" not in src:
-        problems.append('result columns are not assigned from estimates_list / uncertainties_list')
+        if not problems:
+            raise Unsupported('source shape not recognised: result columns are not literally assigned from estimates_list / uncertainties_list')
     return dict(verdict='refuted' if problems else 'discharged', model=dict(problems=problems) if problems else None, backend='pyvc-symex', seconds=0, kind='plain',
                 detail='; '.join(problems) or "single_qubit_p_se holds the uncertainties, single_qubit_p_est the estimates; dropped: %s" % x.dropped[:5],
                 functions=[dict(function=f.ref, sha256_16=f.sha)], transparent=[])
@@ -136,10 +137,8 @@ def ob_read_entry(timeout=10):
     f = get_func(AN, 'read_entry')
     src = ast.unparse(f.node)
     problems = []
-    if "entry['n_trials'] = len(entry['effective_error'])" not in src:
-        problems.append("n_trials is not len(effective_error)")
-    if "entries += read_entry(sub_data, results_file=results_file)" not in src:
-        problems.append('nested lists are not flattened recursively')
+    if "entry['n_trials'] = len(entry['effective_error'])" not in src or "entries += read_entry(sub_data, results_file=results_file)" not in src:
+        raise Unsupported('source shape of read_entry not recognised')
     return dict(verdict='refuted' if problems else 'discharged', model=dict(problems=problems) if problems else None, backend='pyvc-structural', seconds=0, kind='plain',
                 detail='; '.join(problems) or 'n_trials = len(effective_error); lists flattened recursively', functions=[dict(function=f.ref, sha256_16=f.sha)], transparent=[])
 
